@@ -16,6 +16,7 @@ REQUIRED_EVENTS = ["pushforward_identities", "discrete_cases", "wrapper_compared
 RULE = (
     "array transformations on the quantile grid x = mu + sigma*Phi^-1((i-1/2)/n) for seeded (mu, sigma^2, bounds, values, "
     "thresholds); Field.transform wrappers for every method x process x keep_mean x store; all cases non-trivial"
+    " A second transform chained on a named stored field; force_moments on data with mean/std up to 3e7."
 )
 ASSUMPTIONS = [
     "scipy.special.ndtr/ndtri (normal cdf / quantile) are correct",
